@@ -186,35 +186,61 @@ func c03CtxAgreement(p *Prog, r *Report, rule string) {
 		}
 	}
 	syncCall, asyncCall := false, false
-	ast.Inspect(run.Decl.Body, func(x ast.Node) bool {
-		switch s := x.(type) {
-		case *ast.GoStmt:
-			if objOf(info, s.Call.Fun) == fnParam {
-				asyncCall = true
+	// (the context helpers may be functions of the package: withTxn / txnFrom)
+	deepBodies := func(fi *FuncInfo) []*ast.BlockStmt {
+		res := []*ast.BlockStmt{fi.Decl.Body}
+		seen := map[string]bool{fi.Key: true}
+		for depth, frontier := 0, []*FuncInfo{fi}; depth < 2; depth++ {
+			var next []*FuncInfo
+			for _, g := range frontier {
+				ast.Inspect(g.Decl.Body, func(x ast.Node) bool {
+					if c, ok := x.(*ast.CallExpr); ok {
+						if h := p.staticCallee(g.Pkg, c); h != nil && h.Pkg == fi.Pkg && !seen[h.Key] && h.Decl != nil && h.Decl.Body != nil {
+							seen[h.Key] = true
+							res = append(res, h.Decl.Body)
+							next = append(next, h)
+						}
+					}
+					return true
+				})
 			}
-		case *ast.CallExpr:
-			if isFunc(info, s, "context", "WithValue") && len(s.Args) == 3 {
-				storedKey, storedVal, storePos = info.Types[s.Args[1]].Type, info.Types[s.Args[2]].Type, s
-			}
-			if objOf(info, s.Fun) == fnParam && fnParam != nil {
-				syncCall = true
-			}
+			frontier = next
 		}
-		return true
-	})
+		return res
+	}
+	for _, body := range deepBodies(run) {
+		ast.Inspect(body, func(x ast.Node) bool {
+			switch s := x.(type) {
+			case *ast.GoStmt:
+				if objOf(info, s.Call.Fun) == fnParam {
+					asyncCall = true
+				}
+			case *ast.CallExpr:
+				if isFunc(info, s, "context", "WithValue") && len(s.Args) == 3 {
+					storedKey, storedVal, storePos = info.Types[s.Args[1]].Type, info.Types[s.Args[2]].Type, s
+				}
+				if objOf(info, s.Fun) == fnParam && fnParam != nil {
+					syncCall = true
+				}
+			}
+			return true
+		})
+	}
 	var askedKey, askedVal types.Type
 	var askPos ast.Node
 	dinfo := db.Pkg.TypesInfo
-	ast.Inspect(db.Decl.Body, func(x ast.Node) bool {
-		if ta, ok := x.(*ast.TypeAssertExpr); ok && ta.Type != nil {
-			if c, ok := ast.Unparen(ta.X).(*ast.CallExpr); ok {
-				if sel, ok := c.Fun.(*ast.SelectorExpr); ok && sel.Sel.Name == "Value" && len(c.Args) == 1 {
-					askedKey, askedVal, askPos = dinfo.Types[c.Args[0]].Type, dinfo.Types[ta.Type].Type, ta
+	for _, body := range deepBodies(db) {
+		ast.Inspect(body, func(x ast.Node) bool {
+			if ta, ok := x.(*ast.TypeAssertExpr); ok && ta.Type != nil {
+				if c, ok := ast.Unparen(ta.X).(*ast.CallExpr); ok {
+					if sel, ok := c.Fun.(*ast.SelectorExpr); ok && sel.Sel.Name == "Value" && len(c.Args) == 1 {
+						askedKey, askedVal, askPos = dinfo.Types[c.Args[0]].Type, dinfo.Types[ta.Type].Type, ta
+					}
 				}
 			}
-		}
-		return true
-	})
+			return true
+		})
+	}
 	if storedKey == nil || askedKey == nil {
 		r.Undecided(rule, "badger.Manager#ctx-txn", p.pos(run.Decl), "context.WithValue / ctx.Value(...).(T) not found")
 		return
